@@ -18,7 +18,7 @@ func init() { Register(c08{}) }
 func (c08) ID() string    { return "C08" }
 func (c08) Level() string { return "fault_enumeration" }
 func (c08) Rule() string {
-	return "workload = valid file from a seeded fault-free writer run (strings up to 300 bytes in half of the files, page size 1..50). Cases per file: fixed chunk size c for EVERY c in 1..(largest single read the reader requests on that file) [quick: every c <= 48 and a seeded sample above; sizes above 512 and the 1-2% files of the large class (pages of 100..1200 records) are sampled in both tiers], seeded random fragmentations, random-small (1..3 bytes), len-1, one-byte-after-seek; each x eof_with_data {off,on} x source kind {ReadSeeker; +ByteReader; +ByteReader+ReaderAt+WriterTo} (thorough: all six combinations per c; quick: one seeded combination per c). Non-trivial = at least one Read really returned fewer bytes than requested; distinct = distinct (file digest, policy, arg, eof flag, source kind)."
+	return "workload = valid file from a seeded fault-free writer run (strings up to 300 bytes in half of the files, page size 1..50). Cases per file: fixed chunk size c for EVERY c in 1..(largest single read the reader requests on that file) [quick: every c <= 48 and a seeded sample above; sizes above 512 and the 1-2% files of the large class (pages of 100..1200 records) are sampled in both tiers], seeded random fragmentations, random-small (1..3 bytes), len-1, one-byte-after-seek; each x eof_with_data {off,on} x source kind {ReadSeeker; +ByteReader; +ByteReader+ReaderAt+WriterTo; file-like: also Name and Stat} (thorough: all eight combinations per c; quick: one seeded combination per c). Non-trivial = at least one Read really returned fewer bytes than requested; distinct = distinct (file digest, policy, arg, eof flag, source kind)."
 }
 func (c08) Assumptions() []string {
 	return []string{
@@ -53,7 +53,8 @@ func (p c08) Run(runseed uint64, tier string, acc *Acc) []*core.Violation {
 	base, bsrc := baselineRead(f.W.Shape, f.Data, "rs", limit)
 	baseB, _ := baselineRead(f.W.Shape, f.Data, "rsb", limit)
 	baseX, _ := baselineRead(f.W.Shape, f.Data, "rsx", limit)
-	if !usableBaseline(base, f.Want) || !usableBaseline(baseB, f.Want) || !usableBaseline(baseX, f.Want) {
+	baseF, _ := baselineRead(f.W.Shape, f.Data, "rsf", limit)
+	if !usableBaseline(base, f.Want) || !usableBaseline(baseB, f.Want) || !usableBaseline(baseX, f.Want) || !usableBaseline(baseF, f.Want) {
 		acc.Unusable++
 		return nil
 	}
@@ -62,7 +63,7 @@ func (p c08) Run(runseed uint64, tier string, acc *Acc) []*core.Violation {
 	acc.Inc("shape/" + f.W.Shape)
 	maxReq := bsrc.Stats.MaxReadReq
 	var frags []core.Frag
-	kinds := []string{"rs", "rsb", "rsx"}
+	kinds := []string{"rs", "rsb", "rsx", "rsf"}
 	addAll := func(fr core.Frag) {
 		if tier == "thorough" {
 			for _, e := range []bool{false, true} {
@@ -116,7 +117,7 @@ func (p c08) Run(runseed uint64, tier string, acc *Acc) []*core.Violation {
 		if tier == "thorough" {
 			ks = kinds
 		} else {
-			ks = []string{kinds[r.Intn(3)]}
+			ks = []string{kinds[r.Intn(4)]}
 		}
 		for _, k := range ks {
 			c := &core.Case{Prop: "C08", Seed: runseed, W: f.W, SourceKind: k, Frag: &frags[i]}
@@ -209,7 +210,7 @@ func (p c08) Shrink(c *core.Case) []*core.Case {
 		n.Frag = &g
 		out = append(out, &n)
 	}
-	if c.SourceKind == "rsb" || c.SourceKind == "rsx" {
+	if c.SourceKind != "" && c.SourceKind != "rs" {
 		n := *c
 		n.SourceKind = "rs"
 		out = append(out, &n)
